@@ -176,6 +176,10 @@ func (s *c08State) put(topics []string, mode string) {
 			id = "id-" + tok
 			msg = mkMsg(tok, id, true)
 		}
+	case "empty_id":
+		// manual mode only: an ID that is set but empty is a legal ID; an unset one is not an ID at all
+		id = ""
+		msg = mkMsg(tok, "", true)
 	case "wrong_id_mode":
 		if s.m.Auto {
 			msg = mkMsg(tok, "own-"+tok, true)
@@ -373,7 +377,10 @@ func (s *c08State) replayAllClasses(rng *rand.Rand, faults bool) {
 }
 
 func (s *c08State) neverIssued() []string {
-	out := []string{"never", "", "-1", "1x", " 1", "18446744073709551616"}
+	out := []string{"never", "-1", "1x", " 1", "18446744073709551616"}
+	if s.m.find("") < 0 {
+		out = append(out, "")
+	}
 	if s.m.Auto {
 		out = append(out, strconv.FormatUint(s.m.NextID, 10), strconv.FormatUint(s.m.NextID+1, 10), strconv.FormatUint(s.m.NextID+uint64(s.m.Cap), 10), "18446744073709551615", "007", "00")
 	} else {
@@ -420,7 +427,11 @@ func TestC08(t *testing.T) {
 				// before any Put
 				s.replayAllClasses(nil, false)
 				for h := 0; h < 2*capN+2; h++ {
-					s.put(topicSets[pat[h%len(pat)]], "valid")
+					if !auto && h == 1 {
+						s.put(topicSets[pat[h%len(pat)]], "empty_id")
+					} else {
+						s.put(topicSets[pat[h%len(pat)]], "valid")
+					}
 					s.replayAllClasses(nil, true)
 					// replay must not change state: repeat one replay and compare through the model again
 					if h%2 == 1 {
@@ -458,10 +469,16 @@ func TestC08(t *testing.T) {
 			nops = 80
 		}
 		var sig strings.Builder
+		usedEmpty := false
 		for j := 0; j < nops; j++ {
 			switch x := rng.IntN(10); {
 			case x < 5:
-				s.put(topicSets[rng.IntN(len(topicSets))], "valid")
+				if !auto && !usedEmpty && rng.IntN(6) == 0 {
+					usedEmpty = true
+					s.put(topicSets[rng.IntN(len(topicSets))], "empty_id")
+				} else {
+					s.put(topicSets[rng.IntN(len(topicSets))], "valid")
+				}
 				sig.WriteByte('P')
 			case x == 5:
 				s.put(topicSets[rng.IntN(len(topicSets))], []string{"wrong_id_mode", "no_topics", "empty_topics"}[rng.IntN(3)])
@@ -549,6 +566,9 @@ func (s *c09State) put(topics []string) {
 		id = strconv.FormatUint(s.m.NextID, 10)
 	} else {
 		id = "id-" + tok
+		if s.ntok == 2 {
+			id = "" // set but empty
+		}
 		msg = mkMsg(tok, id, true)
 	}
 	s.ops = append(s.ops, fmt.Sprintf("Put(%s,topics=%v)@%d", tok, topics, s.now.Sub(c09Epoch)))
